@@ -112,6 +112,12 @@ def run_matrix(tier, seed, report):
                 n_eval += 1
                 report("matrix/no-cache/{}/pw={}".format(name, pw), same(got, refs[name]),
                        dict(max_abs_diff=float(np.max(np.abs(np.asarray(got) - refs[name]))) if np.shape(got) == refs[name].shape else "shape"))
+            # only the test list given (time-slab order, not the leaf order): the trial list defaults to the SAME list
+            te_only = sorted(elems[:12], key=lambda e: (e.time_interval[0], e.space_interval[0]))[::-1]
+            with quiet():
+                got = SL0.bilform_matrix(te_only, use_mp=False)
+            n_eval += 1
+            report("matrix/default-trial-list-is-the-test-list/pw={}".format(pw), same(got, pairwise(SL0, te_only, te_only)), {})
             # other operators constructed in the same process before the pooled call (they must not leak into the workers)
             with quiet():
                 _other1 = SingleLayerOperator(build_mesh("LShape", steps=1), pw_exact=not pw)
@@ -178,6 +184,26 @@ def run_matrix(tier, seed, report):
             SL2n = SingleLayerOperator(mesh2)
         n_eval += 1
         report("matrix/cache/other-curve-same-shape", same(g, pairwise(SL2n, e2[:10], e2[3:15])), {})
+        # two different user-defined polygons (same class, same break points, hence identical element lists) sharing the cache
+        # directory: the second must not be served the first one's matrix
+        from src.parametrization import PiecewisePolygon
+        from src.mesh import MeshParametrized
+        sq = PiecewisePolygon([np.array(v, dtype=float) for v in ((0, 0), (1, 0), (2, 0), (2, 1), (2, 2), (1, 2), (0, 2), (0, 1), (0, 0))])
+        rc = PiecewisePolygon([np.array(v, dtype=float) for v in ((0, 0), (1, 0), (2, 0), (3, 0), (3, 1), (2, 1), (1, 1), (0, 1), (0, 0))])
+        cdir = os.path.join(tmp, "custom")
+        os.makedirs(cdir)
+        mats = []
+        for crv in (sq, rc):
+            with quiet():
+                mc = MeshParametrized(crv)
+                mc.uniform_refine()
+                ec = list(mc.leaf_elements)
+                SLa = SingleLayerOperator(mc, cache_dir=cdir)
+                got = SLa.bilform_matrix(ec[:12], ec[:12])
+                ref_c = pairwise(SingleLayerOperator(mc), ec[:12], ec[:12])
+            mats.append(same(got, ref_c))
+            n_eval += 1
+        report("matrix/cache/two-user-defined-polygons-do-not-share-entries", all(mats), dict(ok=mats))
     finally:
         slmod.mp.cpu_count = real_cpu
         shutil.rmtree(tmp, ignore_errors=True)
@@ -191,7 +217,13 @@ def run_vector(tier, seed, report):
     import src.initial_potential as ipmod
     from src.initial_mesh import UnitSquareBoundaryRefined
     mesh = build_mesh(steps=1)
-    elems = list(mesh.leaf_elements)[:6 if tier == "quick" else 12]
+    leaves = list(mesh.leaf_elements)
+    # elements of different widths, listed neither in leaf order nor by width (whatever the pool does with the order in which it
+    # hands out the work, entry j belongs to elems[j])
+    small = [e for e in leaves if e.h_x < max(x.h_x for x in leaves)]
+    big = [e for e in leaves if e not in small]
+    k = 3 if tier == "quick" else 6
+    elems = big[:1] + small[:2] + big[1:k] + small[2:4]
     u0 = lambda xy: np.sin(xy[0]) * xy[1] + 1.0
     tmp = tempfile.mkdtemp(prefix="stbem_cache_")
     real_cpu = mp.cpu_count
